@@ -42,6 +42,7 @@ package dns
 //@ func tsigVerify [C11]
 //@   requires provider != nil
 //@   exit mac:  ret0 == nil ==> callres("Verify") == nil
+//@   assert at "return ErrTime" late: (now >= tsig.TimeSigned && now - tsig.TimeSigned > tsig.Fudge) || (now < tsig.TimeSigned && tsig.TimeSigned - now > tsig.Fudge)
 //@   exit time: ret0 == nil ==> (now >= tsig.TimeSigned ==> now - tsig.TimeSigned <= tsig.Fudge) && (now < tsig.TimeSigned ==> tsig.TimeSigned - now <= tsig.Fudge)
 
 // the built-in HMAC provider accepts only when the recomputed MAC equals the one in the record
